@@ -181,6 +181,13 @@ class _IdentityKey:
         return isinstance(other, _IdentityKey) and self.obj is other.obj
 
 
+_CONVERTER_MEMO_SIZE = 1024
+"""
+Bound of the `make_converter` memo. Keys keep their type object alive, and every evaluation of e.g. `list[int]`
+is a new object, so an unbounded memo would grow by one entry per `from_data(v, list[int])` call.
+"""
+
+
 def _make_converter_key_f(ty: IntoConverter, handlers: ConverterHandlers = ConverterHandlers()) -> t.Any:
     return (_IdentityKey(ty), handlers)
 
@@ -193,7 +200,7 @@ def make_converter(ty: t.Type[T], handlers: ConverterHandlers = ...) -> Converte
 def make_converter(ty: IntoConverter, handlers: ConverterHandlers = ...) -> Converter[t.Any]:
     ...
 
-@key_cache(_make_converter_key_f)
+@key_cache(_make_converter_key_f, maxsize=_CONVERTER_MEMO_SIZE)
 def make_converter(ty: IntoConverter, handlers: ConverterHandlers = ConverterHandlers()) -> Converter[t.Any]:
     """
     Make a [`Converter`][pane.convert.Converter] for `ty`.
